@@ -1,5 +1,5 @@
 SPECIFICATION Spec
 CONSTANTS
-  Dev = {"RequestIdZero", "RequestUriDoubleSlash", "ContentLengthTruncatedU16", "StderrInResponse", "UnknownTypePanics", "NonUtf8Panics", "BadStatusPanics", "ConnErrorExitsServer"}
+  Dev = {"RequestIdZero", "RequestUriDoubleSlash", "ContentLengthTruncatedU16", "StderrInResponse", "UnknownStatusBecomes200", "UnknownTypePanics", "NonUtf8Panics", "BadStatusPanics", "ConnErrorExitsServer"}
 INVARIANTS AllExplained
 CHECK_DEADLOCK FALSE
